@@ -373,6 +373,9 @@ func pickMove(r *rand.Rand, p *board.Position, turn board.Color) (board.Move, *b
 		case m.Piece == board.King || m.Piece == board.Rook:
 			w = 3
 		}
+		if m.IsCapture() && (m.To == board.A1 || m.To == board.H1 || m.To == board.A8 || m.To == board.H8) {
+			w = 40
+		}
 		if next.IsChecked(turn.Opponent()) {
 			w += 6
 		}
